@@ -62,6 +62,7 @@ func cmdRun(args []string) {
 	timeout := fs.Int("timeout", 20, "")
 	par := fs.Int("par", 16, "")
 	verbose := fs.Bool("v", false, "")
+	dumpAll := fs.Bool("dumpall", false, "dump queries of discharged obligations too")
 	fs.Parse(args)
 	t0 := time.Now()
 	w, err := LoadWorld(*repo, []string{*spec})
@@ -95,6 +96,11 @@ func cmdRun(args []string) {
 	d.RunAll(w, obls, *par)
 	nd := 0
 	for _, o := range obls {
+		if o.Status == "discharged" && *dumpAll && *dump != "" {
+			os.MkdirAll(*dump, 0o755)
+			name := strings.NewReplacer("/", "_", "(", "_", ")", "_", "*", "_", "$", "_", "[", "_", "]", "_").Replace(o.Name)
+			os.WriteFile(fmt.Sprintf("%s/%s.smt2", *dump, name), []byte(w.query(o, false)), 0o644)
+		}
 		if o.Status == "discharged" {
 			nd++
 			if *verbose {
